@@ -17,6 +17,9 @@ KNOWN_KINDS = ["Int","Float","Bool","None","Bytes","String","ByteArray","List","
 KNOWN_MUTS = ["Bitflip","Boundary","Offbyone","Stringlen","Character","Memoindex","Typeconfusion"]
 
 TABLES_FILE = [None]
+CACHE = [{}]
+CACHE_KEYS = {"ascii": ["ascii"], "boundaries": ["b_int", "b_long", "b_float"], "typeconfusion": ["o2t", "all_types", "stack_types"],
+              "defaults": ["def_min", "def_max", "def_rate"], "all_mutators": ["all_safe", "all_unsafe_extra"]}
 
 
 class Refuse(Exception):
@@ -112,82 +115,109 @@ def extract(repo):
     stk = open(os.path.join(repo, "src/stack.rs")).read()
     kinds = enum_variants(stk, "StackObject")
     if kinds != KNOWN_KINDS: raise Refuse("StackObject variants changed: %r" % kinds)
-    srcrs = open(os.path.join(repo, "src/generator/source.rs")).read()
-    m = re.search(r'const ASCII_CHARS: &\[u8\] = b"((?:[^"\\]|\\.)*)";', srcrs)
-    if not m: raise Refuse("ASCII_CHARS not found")
-    raw = m.group(1)
-    out = []; i = 0
-    while i < len(raw):
-        if raw[i] == "\\":
-            c = raw[i+1]
-            if c in '\\"': out.append(ord(c)); i += 2
-            elif c == "n": out.append(10); i += 2
-            elif c == "t": out.append(9); i += 2
-            elif c == "x": out.append(int(raw[i+2:i+4], 16)); i += 4
-            else: raise Refuse("unknown escape in ASCII_CHARS")
-        else:
-            out.append(ord(raw[i])); i += 1
-    R["ascii"] = out
-    # boundary tables
-    bnd = open(os.path.join(repo, "src/mutators/boundary.rs")).read()
-    def boundaries(fn):
-        m = re.search(r"fn %s\(.*?let boundaries = \[(.*?)\];" % fn, bnd, re.S)
-        if not m: raise Refuse("boundaries of %s not found" % fn)
-        return [x.strip() for x in strip_comments(m.group(1)).split(",") if x.strip()]
-    def ival(tok, bits):
-        t = {"i32::MAX": 2**31-1, "i32::MIN": -2**31, "i64::MAX": 2**63-1, "i64::MIN": -2**63}
-        if tok in t: return t[tok]
-        try: return int(tok)
-        except ValueError: raise Refuse("unknown integer boundary %s" % tok)
-    def fval(tok):
-        t = {"f64::MAX": 0x7FEFFFFFFFFFFFFF, "f64::MIN": 0xFFEFFFFFFFFFFFFF, "f64::INFINITY": 0x7FF0000000000000,
-             "f64::NEG_INFINITY": 0xFFF0000000000000, "f64::NAN": 0x7FF8000000000000,
-             "f64::MIN_POSITIVE": 0x0010000000000000, "f64::EPSILON": 0x3CB0000000000000}
-        if tok in t: return t[tok]
-        try: return struct.unpack("<Q", struct.pack("<d", float(tok)))[0]
-        except ValueError: raise Refuse("unknown float boundary %s" % tok)
-    R["b_int"] = [ival(x, 32) for x in boundaries("mutate_int")]
-    R["b_long"] = [ival(x, 64) for x in boundaries("mutate_long")]
-    R["b_float"] = [fval(x) for x in boundaries("mutate_float")]
-    # type confusion: opcode byte -> pushed type
-    tc = open(os.path.join(repo, "src/mutators/typeconfusion.rs")).read()
-    m = re.search(r"fn opcode_to_type\(opcode_byte: u8\) -> Option<StackType> \{.*?match opcode_byte \{(.*?)\n        \}", tc, re.S)
-    if not m: raise Refuse("opcode_to_type not found")
-    body = strip_comments(m.group(1))
-    o2t = []
-    for pat, res in re.findall(r"((?:0x[0-9a-fA-F]+\s*\|?\s*)+)=>\s*Some\(StackType::(\w+)\)", body):
-        for b in re.findall(r"0x[0-9a-fA-F]+", pat):
-            o2t.append((int(b, 16), res))
-    if not re.search(r"_\s*=>\s*None", body): raise Refuse("opcode_to_type has no default None arm")
-    R["o2t"] = o2t
-    m = re.search(r"let all_types = \[(.*?)\];", tc, re.S)
-    if not m: raise Refuse("all_types not found")
-    R["all_types"] = re.findall(r"StackType::(\w+)", m.group(1))
-    st = enum_variants(tc, "StackType") if re.search(r"pub enum StackType", tc) else None
-    m = re.search(r"enum StackType\s*\{(.*?)\}", tc, re.S)
-    R["stack_types"] = [x.strip() for x in strip_comments(m.group(1)).split(",") if x.strip()]
-    # generator defaults
-    gm = open(os.path.join(repo, "src/generator/mod.rs")).read()
-    m = re.search(r"impl Default for Generator \{.*?Self \{(.*?)\}\s*\}\s*\}", gm, re.S)
-    if not m: raise Refuse("Generator::default not found")
-    d = dict(re.findall(r"(\w+):\s*([^,\n]+),", m.group(1)))
-    try:
-        R["def_min"] = int(d["min_opcodes"]); R["def_max"] = int(d["max_opcodes"])
-        R["def_rate"] = struct.unpack("<Q", struct.pack("<d", float(d["mutation_rate"])))[0]
-        for k in ("unsafe_mutations", "allow_ext_opcodes", "allow_buffer_opcodes"):
-            if d[k].strip() != "false": raise Refuse("default %s is not false" % k)
-        if d["mutators"].strip() != "Vec::new()": raise Refuse("default mutators not empty")
-    except KeyError as e:
-        raise Refuse("Generator::default misses %s" % e)
-    # all_mutators
-    mm = open(os.path.join(repo, "src/mutators/mod.rs")).read()
-    m = re.search(r"pub fn all_mutators\(unsafe_mutations: bool\) -> Vec<MutatorKind> \{\s*let mut mutators = vec!\[(.*?)\];(.*?)\n    \}", mm, re.S)
-    if not m: raise Refuse("all_mutators not found")
-    R["all_safe"] = re.findall(r"MutatorKind::(\w+)", m.group(1))
-    extra = re.search(r"if unsafe_mutations \{(.*?)\}", m.group(2), re.S)
-    R["all_unsafe_extra"] = re.findall(r"MutatorKind::(\w+)", extra.group(1)) if extra else []
-    for n in R["all_safe"] + R["all_unsafe_extra"]:
-        if n not in KNOWN_MUTS: raise Refuse("unknown mutator kind %s" % n)
+    # The sections below read constants out of files whose *shape* a harmless refactoring may change.  When a section is
+    # not recognised, the values of the last recognised extraction (tools/translate_cache.json, written with
+    # --update-cache on the unchanged tree) are used and the section is reported as SOFT-REFUSED together with the
+    # properties it concerns: those properties then rest on the correspondence streams alone (S4/S5/S7 compare every
+    # constant's effect with the real code), the others are not affected.
+    R["soft_refused"] = []
+    def soft(name, props, keys, fn):
+        try:
+            fn()
+            return
+        except (Refuse, AttributeError, IndexError, KeyError, ValueError, TypeError) as ex:
+            cached = CACHE[0].get(name)
+            if not cached or any(k not in cached for k in keys):
+                raise Refuse("%s (section %s; no cached values)" % (ex, name))
+            for k in keys:
+                R[k] = cached[k]
+            R["soft_refused"].append((name, props, str(ex)))
+    def sec_ascii():
+        srcrs = open(os.path.join(repo, "src/generator/source.rs")).read()
+        m = re.search(r'const ASCII_CHARS: &\[u8\] = b"((?:[^"\\]|\\.)*)";', srcrs)
+        if not m: raise Refuse("ASCII_CHARS not found")
+        raw = m.group(1)
+        out = []; i = 0
+        while i < len(raw):
+            if raw[i] == "\\":
+                c = raw[i+1]
+                if c in '\\"': out.append(ord(c)); i += 2
+                elif c == "n": out.append(10); i += 2
+                elif c == "t": out.append(9); i += 2
+                elif c == "x": out.append(int(raw[i+2:i+4], 16)); i += 4
+                else: raise Refuse("unknown escape in ASCII_CHARS")
+            else:
+                out.append(ord(raw[i])); i += 1
+        R["ascii"] = out
+    def sec_boundaries():
+        # boundary tables
+        bnd = open(os.path.join(repo, "src/mutators/boundary.rs")).read()
+        def boundaries(fn):
+            m = re.search(r"fn %s\(.*?let \w+(?:\s*:[^=]+)?\s*=\s*\[(.*?)\];" % fn, bnd, re.S)
+            if not m: raise Refuse("boundaries of %s not found" % fn)
+            return [x.strip() for x in strip_comments(m.group(1)).split(",") if x.strip()]
+        def ival(tok, bits):
+            t = {"i32::MAX": 2**31-1, "i32::MIN": -2**31, "i64::MAX": 2**63-1, "i64::MIN": -2**63}
+            if tok in t: return t[tok]
+            try: return int(tok)
+            except ValueError: raise Refuse("unknown integer boundary %s" % tok)
+        def fval(tok):
+            t = {"f64::MAX": 0x7FEFFFFFFFFFFFFF, "f64::MIN": 0xFFEFFFFFFFFFFFFF, "f64::INFINITY": 0x7FF0000000000000,
+                 "f64::NEG_INFINITY": 0xFFF0000000000000, "f64::NAN": 0x7FF8000000000000,
+                 "f64::MIN_POSITIVE": 0x0010000000000000, "f64::EPSILON": 0x3CB0000000000000}
+            if tok in t: return t[tok]
+            try: return struct.unpack("<Q", struct.pack("<d", float(tok)))[0]
+            except ValueError: raise Refuse("unknown float boundary %s" % tok)
+        R["b_int"] = [ival(x, 32) for x in boundaries("mutate_int")]
+        R["b_long"] = [ival(x, 64) for x in boundaries("mutate_long")]
+        R["b_float"] = [fval(x) for x in boundaries("mutate_float")]
+    def sec_typeconf():
+        # type confusion: opcode byte -> pushed type
+        tc = open(os.path.join(repo, "src/mutators/typeconfusion.rs")).read()
+        m = re.search(r"fn opcode_to_type\(opcode_byte: u8\) -> Option<StackType> \{.*?match opcode_byte \{(.*?)\n        \}", tc, re.S)
+        if not m: raise Refuse("opcode_to_type not found")
+        body = strip_comments(m.group(1))
+        o2t = []
+        for pat, res in re.findall(r"((?:0x[0-9a-fA-F]+\s*\|?\s*)+)=>\s*Some\(StackType::(\w+)\)", body):
+            for b in re.findall(r"0x[0-9a-fA-F]+", pat):
+                o2t.append((int(b, 16), res))
+        if not re.search(r"_\s*=>\s*None", body): raise Refuse("opcode_to_type has no default None arm")
+        R["o2t"] = o2t
+        m = re.search(r"let all_types = \[(.*?)\];", tc, re.S)
+        if not m: raise Refuse("all_types not found")
+        R["all_types"] = re.findall(r"StackType::(\w+)", m.group(1))
+        st = enum_variants(tc, "StackType") if re.search(r"pub enum StackType", tc) else None
+        m = re.search(r"enum StackType\s*\{(.*?)\}", tc, re.S)
+        R["stack_types"] = [x.strip() for x in strip_comments(m.group(1)).split(",") if x.strip()]
+    def sec_defaults():
+        # generator defaults
+        gm = open(os.path.join(repo, "src/generator/mod.rs")).read()
+        m = re.search(r"impl Default for Generator \{.*?Self \{(.*?)\}\s*\}\s*\}", gm, re.S)
+        if not m: raise Refuse("Generator::default not found")
+        d = dict(re.findall(r"(\w+):\s*([^,\n]+),", m.group(1)))
+        try:
+            R["def_min"] = int(d["min_opcodes"]); R["def_max"] = int(d["max_opcodes"])
+            R["def_rate"] = struct.unpack("<Q", struct.pack("<d", float(d["mutation_rate"])))[0]
+            for k in ("unsafe_mutations", "allow_ext_opcodes", "allow_buffer_opcodes"):
+                if d[k].strip() != "false": raise Refuse("default %s is not false" % k)
+            if d["mutators"].strip() != "Vec::new()": raise Refuse("default mutators not empty")
+        except KeyError as e:
+            raise Refuse("Generator::default misses %s" % e)
+    def sec_all_mutators():
+        # all_mutators
+        mm = open(os.path.join(repo, "src/mutators/mod.rs")).read()
+        m = re.search(r"pub fn all_mutators\(unsafe_mutations: bool\) -> Vec<MutatorKind> \{\s*let mut mutators = vec!\[(.*?)\];(.*?)\n    \}", mm, re.S)
+        if not m: raise Refuse("all_mutators not found")
+        R["all_safe"] = re.findall(r"MutatorKind::(\w+)", m.group(1))
+        extra = re.search(r"if unsafe_mutations \{(.*?)\}", m.group(2), re.S)
+        R["all_unsafe_extra"] = re.findall(r"MutatorKind::(\w+)", extra.group(1)) if extra else []
+        for n in R["all_safe"] + R["all_unsafe_extra"]:
+            if n not in KNOWN_MUTS: raise Refuse("unknown mutator kind %s" % n)
+    soft("ascii", ["C18", "C04", "C05", "C16"], ["ascii"], sec_ascii)
+    soft("boundaries", ["C16", "C15"], ["b_int", "b_long", "b_float"], sec_boundaries)
+    soft("typeconfusion", ["C16"], ["o2t", "all_types", "stack_types"], sec_typeconf)
+    soft("defaults", ["C13", "C12"], ["def_min", "def_max", "def_rate"], sec_defaults)
+    soft("all_mutators", ["C13"], ["all_safe", "all_unsafe_extra"], sec_all_mutators)
     # C14: every in-place mutation site works on a stack cell (bound by self.peek() / self.pop()), and
     # Stack::push registers the cell it creates; reset and Drop release the registered cells.
     # A refusal in this section concerns C14 only: it is recorded (R["heap_refused"]) instead of aborting the
@@ -299,9 +329,15 @@ def main():
     ap = argparse.ArgumentParser()
     ap.add_argument("--repo", default="/repo")
     ap.add_argument("--out", default="/verif/lean/PFV/Generated.lean")
+    ap.add_argument("--update-cache", action="store_true", help="write tools/translate_cache.json from this (fully recognised) extraction")
     ap.add_argument("--tables", default=None, help="output of `pfv-harness tables`, used when opcodes.rs is not recognised")
     a = ap.parse_args()
     TABLES_FILE[0] = a.tables
+    cache_path = os.path.join(os.path.dirname(os.path.abspath(__file__)), "translate_cache.json")
+    try:
+        CACHE[0] = json.load(open(cache_path))
+    except (OSError, ValueError):
+        CACHE[0] = {}
     ap_report = os.path.join(os.path.dirname(os.path.abspath(a.out)), "..", ".lake", "translate_report.json")
     try:
         R = extract(a.repo)
@@ -313,6 +349,10 @@ def main():
             pass
         for msg in R["heap_refused"]:
             sys.stderr.write("translate: C14-REFUSED: %s\n" % msg)
+        for name, props, msg in R["soft_refused"]:
+            sys.stderr.write("translate: SOFT-REFUSED: %s: props=%s: %s\n" % (name, ",".join(props), msg.replace("\n", " ")))
+        if a.update_cache and not R["soft_refused"]:
+            json.dump({name: {k: R[k] for k in keys} for name, keys in CACHE_KEYS.items()}, open(cache_path, "w"), indent=0, sort_keys=True)
     except Refuse as e:
         sys.stderr.write("translate: REFUSED: %s\n" % e)
         sys.exit(3)
